@@ -13,15 +13,11 @@ import vlib
 AREA = "ninjabuild"
 BASE_S = 1600000000          # logical ticks are half seconds after this instant (2020): always older than "now"
 
-# How behaviours of the UNCHANGED code that break a clause of the property are surfaced:
-# "violation": chk.violation (exit 1 unless listed in KNOWN_FINDINGS.txt); "note": evidence notes only.
-DEVIATIONS = {
-    "rewire-implicit-input-stale": "violation",
-    "missing-input-accepted": "violation",
-    "generator-failed-not-retried": "violation",
-    "order-only-failure-not-propagated": "note",     # needs -k 0 / -k N>1: outside the property's quantifier
-    "phony-launders-failure": "note",                # needs -k 0
-}
+# Behaviours of the current code that break a clause of the property and are listed in KNOWN_FINDINGS.txt
+# (reported under exactly these key prefixes, so that they print as KNOWN-FINDING and anything else still counts):
+#   generator-failed-not-retried       a generator command that wrote its output and failed is not retried (Ninja compatible)
+#   order-only-failure-not-propagated  -k 0 / -k 2: the dependent of a failed ORDER-ONLY input still runs
+#   phony-launders-failure             -k 0: a command behind a phony alias of a failed command still runs
 
 
 def tick_ns(t):
@@ -86,7 +82,7 @@ def build(llb, d, args=(), tool="llbuild"):
 E2_KINDS = ["src_old", "src_new", "src_eq", "missing", "up_ok_old", "up_ok_new", "up_fail", "up_skip", "up_noout"]
 IMP_KINDS = ["none", "src_old", "src_new", "src_eq", "missing"]
 OO_KINDS = ["none", "src_old", "src_new", "missing", "up_fail", "up_ok_new"]
-PRIORS = ["none", "ok", "ok_otherhash", "failed", "skipped"]
+PRIORS = ["none", "ok", "ok_otherhash", "ok_rewired", "failed", "skipped"]
 OUT_STATES = ["untouched", "fresh", "equal", "older", "missing"]
 
 T_OLD, T_USRC = 10, 8        # ticks of untouched sources / of the upstream commands' own sources
@@ -109,11 +105,16 @@ def table_manifest(case, variant):
         lines.append("build e2: U usrc")
     if case["oo"].startswith("up_"):
         lines.append("build oo: O osrc")
-    b = "build out1%s: T e1 e2" % (" out2" if nouts == 2 else "")
-    if case["imp"] != "none":
-        b += " | imp"
-    if case["oo"] != "none":
-        b += " || oo"
+    if variant == 3:
+        # the input list as it was before a rewiring: explicit inputs in the other order, no implicit / order-only input
+        # (the command line does not mention $in, so only the declared inputs differ)
+        b = "build out1%s: T e2 e1" % (" out2" if nouts == 2 else "")
+    else:
+        b = "build out1%s: T e1 e2" % (" out2" if nouts == 2 else "")
+        if case["imp"] != "none":
+            b += " | imp"
+        if case["oo"] != "none":
+            b += " || oo"
     lines += [b, "default out1", ""]
     return "\n".join(lines)
 
@@ -149,7 +150,7 @@ def table_case(llb, d, case):
     # ---- phase 1: establish the stored value
     prior_val = "N"
     if prior != "none":
-        open(J("build.ninja"), "w").write(table_manifest(case, 1))
+        open(J("build.ninja"), "w").write(table_manifest(case, 3 if prior == "ok_rewired" else 1))
         if prior == "failed":
             open(J("Tfail"), "w").close()
         if prior == "skipped":
@@ -171,8 +172,8 @@ def table_case(llb, d, case):
                 return dict(error="phase 1 build failed", log=log, text=txt[-600:])
             prior_val = "S=1=" + ";".join(fi(J(o)) for o in outs)
     # ---- phase 2: mutate
-    variant = 2 if prior == "ok_otherhash" else 1
-    open(J("build.ninja"), "w").write(table_manifest(case, variant))
+    variant = 2 if prior in ("ok_otherhash", "ok_rewired") else 1
+    open(J("build.ninja"), "w").write(table_manifest(case, 2 if prior == "ok_otherhash" else 1))
     changed = dict(e1=0, e2=0, imp=0, oo=0)
     k = case["e2"]
     if k == "src_new":
@@ -205,6 +206,10 @@ def table_case(llb, d, case):
         rm(J("oo")); changed["oo"] = 1
     elif k == "up_fail":
         rm(J("oo")); open(J("Ofail"), "w").close(); changed["oo"] = 1
+    if prior == "ok_rewired":
+        # the engine re-scans the dependency list RECORDED by the previous build: inputs added by the rewiring are unknown to it
+        changed["imp"] = 0
+        changed["oo"] = 0
     # outputs relative to the newest logical stamp among the delivered inputs
     req = ["e1", "e2"] + (["imp"] if case["imp"] != "none" else [])
     lm = [mtime(J(n)) for n in req]
@@ -282,6 +287,8 @@ def table_oracle(case, ob):
         in_ts.append(ts(f))
     if case["prior"] == "ok_otherhash" and not case["generator"]:
         return "run", "the command line changed"
+    if case["prior"] == "ok_rewired" and not case["generator"]:
+        return "run", "the declared inputs of the command changed"
     if case["prior"] in ("failed", "skipped"):
         return "run", "the command failed / was skipped in the previous build: retried"
     if any(ts(o) < t for o in outs for t in in_ts):
@@ -348,13 +355,7 @@ def case_key(c):
 
 
 def deviation(chk, key, what, replay):
-    mode = DEVIATIONS.get(key, "violation")
-    if mode == "violation":
-        chk.violation(key, what, replay, found_input=True, broken="c18 oracle on llbuild ninja build")
-    else:
-        lst = chk.notes.setdefault("deviations_outside_quantifier", {})
-        if key not in lst:
-            lst[key] = dict(what=what, replay=replay)
+    chk.violation(key, what, replay, found_input=True, broken="c18 oracle on llbuild ninja build")
 
 
 def run_table(chk, llb, model, base):
@@ -390,7 +391,11 @@ def run_table(chk, llb, model, base):
                   how="sandbox as built by harness/py/props/c18.py:table_case; phase 3 = llbuild ninja build -j1%s%s" % (" --strict" if c["strict"] else "", " -k 0" if c["k0"] else ""))
         oracle_bad = (exp == "run" and not r["executed"]) or (exp == "norun" and r["executed"])
         if oracle_bad:
-            if exp == "run" and c["generator"] and c["prior"] in ("failed", "skipped"):
+            if exp == "run" and c["generator"] and c["prior"] == "ok_rewired":
+                deviation(chk, "rewire-generator-input-stale",
+                          "a generator command whose declared inputs were rewired is not re-evaluated: the engine keeps scanning the old recorded "
+                          "dependency list (the hash is not compared for generator commands), so a newer added input does not re-run it", rp)
+            elif exp == "run" and c["generator"] and c["prior"] in ("failed", "skipped"):
                 deviation(chk, "generator-failed-not-retried",
                           "a generator command that failed (or was skipped) in the previous build is not retried when its output is newer than its inputs", rp)
             elif exp == "norun" and r["executed"] and any(i.startswith("o") and i.split("=", 1)[1] in ("F", "K") for i in r["ins"]) and c["k0"]:
